@@ -168,6 +168,23 @@ def status_feeds(prog, depth=0):
             tl = hir.local_of(tag) if tag is not None else None
             tb = f.bindings().get(tl[0]) if tl else None
             tidx = tb["origin"][1] if tb is not None and tb["origin"][0] == "param" else None
+            if tidx is None and tag is not None:
+                # the parameter wrapped on the way: `Some(tag.to_string())`, `Some(tag.into())`
+                prms = set()
+                others = False
+                for x in hir.walk(tag):
+                    lx = hir.local_of(x) if x.get("k") == "Path" else None
+                    if lx is None:
+                        if hir.is_call(x) and not ((hir.callee_name(x) or x.get("method")) in ("to_string", "into", "to_owned", "clone", "from", "as_str", "as_ref") or (hir.peel(x.get("f") or {}).get("res") or {}).get("ctor_path")):
+                            others = True
+                        continue
+                    bx = f.bindings().get(lx[0])
+                    if bx is not None and bx["origin"][0] == "param":
+                        prms.add(bx["origin"][1])
+                    else:
+                        others = True
+                if len(prms) == 1 and not others:
+                    tidx = list(prms)[0]
             callers = [(g, c) for g, c in prog.sites_calling(f) if hir.is_call(c)]
             if callers:
                 for g, c in callers:
